@@ -234,8 +234,10 @@ def custom_filter_scenarios(seed, n, tier):
     beh, _ = rt.tlc_behaviours(0, 10, 4, devs, simulate="num=%d" % n, seed=seed + 17, throw=False)
     rng = random.Random(seed)
     beh = rng.sample(beh, min(n, len(beh)))
-    names = ["f_mod", "f_posonly", "f_star", "f_kwonly", "f_wrapped", "g_mod", "c_mod", "m_inst", "m_over", "m_cls",
-             "m_static", "prop", "g_meth", "c_meth", "h_hidden"]
+    # qualified names: Kls.m_over and Sub.m_over share file and short name but get independent verdicts
+    names = ["f_mod", "f_posonly", "f_star", "f_kwonly", "f_wrapped", "g_mod", "c_mod", "Kls.m_inst", "Kls.m_over", "Sub.m_over",
+             "Kls.m_cls", "Kls.m_static", "Kls.prop", "Kls.g_meth", "Kls.c_meth", "h_hidden", "_make_nested.<locals>.rec_inner",
+             "_make_nested.<locals>.rec_gen"]
     scs = []
     for i, b in enumerate(beh):
         admit = sorted(rng.sample(names, rng.randint(0, len(names))))
